@@ -9,7 +9,7 @@ for d in seeded/*/; do
   prop=$(python3 -c "import json,sys; print(json.load(open('$d/meta.json'))['property'])")
   D=$(mktemp -d /tmp/govc-seed-XXXXXX)
   rsync -a --exclude .git /repo/ "$D/repo/"
-  mkdir -p "$D/verif/contracts"; cp -r contracts/trusted "$D/verif/contracts/"; cp known_findings.json "$D/verif/"
+  mkdir -p "$D/verif/contracts"; cp -r contracts/trusted "$D/verif/contracts/"; cp known_findings.json "$D/verif/"; cp -r bounded "$D/verif/" 2>/dev/null
   if ! (cd "$D/repo" && patch -p1 -s < "/verif/$d/patch.diff"); then echo "SEED $id: patch does not apply to the current tree"; fail=1; rm -rf "$D"; continue; fi
   if ! (cd "$D/repo" && go build ./... 2>/dev/null); then echo "SEED $id: does not build"; fail=1; rm -rf "$D"; continue; fi
   out=$(GOVC_REPO="$D/repo" GOVC_VERIF="$D/verif" bin/govc check -prop "$prop" 2>&1)
